@@ -3906,7 +3906,7 @@ class Client:
                 )
                 # Downgrade to MQTT v3.1
                 self._protocol = MQTTv31
-                return self.reconnect()
+                return self._reconnect_in_handler()
             elif (result == CONNACK_REFUSED_IDENTIFIER_REJECTED
                     and self._client_id == b''):
                 if not self._reconnect_on_failure:
@@ -3917,7 +3917,7 @@ class Client:
                     flags, result,
                 )
                 self._client_id = _base62(uuid.uuid4().int, padding=22).encode("utf8")
-                return self.reconnect()
+                return self._reconnect_in_handler()
 
         if result == 0:
             # disconnect() may have been called while the CONNACK was on its way:
@@ -4052,6 +4052,15 @@ class Client:
             return MQTTErrorCode.MQTT_ERR_CONN_REFUSED
         else:
             return MQTTErrorCode.MQTT_ERR_PROTOCOL
+
+    def _reconnect_in_handler(self) -> MQTTErrorCode:
+        # reconnect() called while handling a CONNACK: a failure to open the new
+        # socket must not escape from the network loop as an exception.
+        try:
+            return self.reconnect()
+        except OSError:
+            self._handle_on_connect_fail()
+            return MQTTErrorCode.MQTT_ERR_CONN_LOST
 
     def _handle_disconnect(self) -> None:
         packet_type = DISCONNECT >> 4
